@@ -1,0 +1,204 @@
+//! Verification hooks. Only compiled with `--features verif`.
+//!
+//! Lets an external test harness run the unmodified code paths of this crate on its own
+//! (deterministic, single-threaded) scheduler and virtual clock. The shim modules below have the
+//! same names as the extern crates they stand in for; a guarded `use crate::verif::<name>;` in a
+//! source file shadows the extern crate there, so no existing line has to change.
+//!
+//! While no [`Backend`] is installed on the current thread every shim function delegates to the
+//! real crate, so the crate behaves exactly as without the feature.
+#![allow(missing_docs, clippy::missing_panics_doc, clippy::must_use_candidate)]
+use std::{cell::RefCell, future::Future, pin::Pin, rc::Rc, time::Duration};
+
+pub type BoxFut = Pin<Box<dyn Future<Output = ()> + Send + 'static>>;
+
+/// What the harness has to provide.
+pub trait Backend {
+    /// Take over a future that the crate wants to run as a task of its own.
+    /// `is_actor` is true for actor event loops, false for helper tasks (timers).
+    fn spawn(&self, fut: BoxFut, is_actor: bool);
+    /// A future that completes once `d` of (virtual) time has passed.
+    fn sleep(&self, d: Duration) -> BoxFut;
+    /// A future that suspends the calling task once (a scheduling point).
+    fn yield_point(&self, tag: &'static str) -> BoxFut;
+}
+
+thread_local! {
+    static BACKEND: RefCell<Option<Rc<dyn Backend>>> = const { RefCell::new(None) };
+}
+
+pub fn install(b: Rc<dyn Backend>) {
+    BACKEND.with(|c| *c.borrow_mut() = Some(b));
+}
+
+pub fn uninstall() {
+    BACKEND.with(|c| *c.borrow_mut() = None);
+}
+
+fn backend() -> Option<Rc<dyn Backend>> {
+    BACKEND.with(|c| c.borrow().clone())
+}
+
+fn raw_id(id: crate::context::ContextID) -> u64 {
+    id.to_string().parse().unwrap_or(u64::MAX)
+}
+
+/// Identity of the actor a handle addresses (the crate-private context id), read-only.
+pub trait VerifId {
+    fn __verif_id(&self) -> u64;
+}
+impl<A> VerifId for crate::Addr<A> {
+    fn __verif_id(&self) -> u64 {
+        raw_id(self.context_id)
+    }
+}
+impl<A> VerifId for crate::OwningAddr<A> {
+    fn __verif_id(&self) -> u64 {
+        raw_id(self.addr.context_id)
+    }
+}
+impl<A: crate::Actor> VerifId for crate::WeakAddr<A> {
+    fn __verif_id(&self) -> u64 {
+        raw_id(self.context_id)
+    }
+}
+impl<M> VerifId for crate::WeakSender<M> {
+    fn __verif_id(&self) -> u64 {
+        raw_id(self.id)
+    }
+}
+impl<M: crate::Message> VerifId for crate::WeakCaller<M> {
+    fn __verif_id(&self) -> u64 {
+        raw_id(self.id)
+    }
+}
+impl<A> VerifId for crate::Context<A> {
+    fn __verif_id(&self) -> u64 {
+        raw_id(self.id)
+    }
+}
+pub(crate) fn sender_or_caller_id(id: crate::context::ContextID) -> u64 {
+    raw_id(id)
+}
+
+/// Stands in for the `tokio` crate inside `actor/spawner/tokio_spawner.rs`.
+#[cfg(feature = "tokio_runtime")]
+pub mod tokio {
+    use super::{Future, Pin, backend};
+    pub mod task {
+        use super::{Future, Pin};
+        use futures::channel::oneshot;
+        pub enum JoinHandle<T> {
+            Real(::tokio::task::JoinHandle<T>),
+            Virt(oneshot::Receiver<T>),
+        }
+        /// The task panicked or was cancelled.
+        #[derive(Debug, Clone, Copy)]
+        pub struct JoinError;
+        impl<T> Future for JoinHandle<T> {
+            type Output = Result<T, JoinError>;
+            fn poll(
+                self: Pin<&mut Self>,
+                cx: &mut std::task::Context<'_>,
+            ) -> std::task::Poll<Self::Output> {
+                match self.get_mut() {
+                    JoinHandle::Real(h) => Pin::new(h).poll(cx).map(|r| r.map_err(|_| JoinError)),
+                    JoinHandle::Virt(r) => Pin::new(r).poll(cx).map(|r| r.map_err(|_| JoinError)),
+                }
+            }
+        }
+    }
+    pub fn spawn<F>(future: F) -> task::JoinHandle<F::Output>
+    where
+        F: Future + Send + 'static,
+        F::Output: Send + 'static,
+    {
+        if let Some(b) = backend() {
+            let (tx, rx) = futures::channel::oneshot::channel();
+            // actor loops return `DynResult<A>`, helper tasks return `()`
+            let is_actor = std::mem::size_of::<F::Output>() != 0;
+            b.spawn(
+                Box::pin(async move {
+                    let r = future.await;
+                    let _ = tx.send(r);
+                }),
+                is_actor,
+            );
+            task::JoinHandle::Virt(rx)
+        } else {
+            task::JoinHandle::Real(::tokio::spawn(future))
+        }
+    }
+    pub mod time {
+        use super::super::{Duration, Future, backend};
+        pub fn sleep(d: Duration) -> impl Future<Output = ()> + Send {
+            // the `Rc` must not be held across the await (the future has to be `Send`)
+            let virt = backend().map(|b| b.sleep(d));
+            async move {
+                if let Some(f) = virt {
+                    f.await
+                } else {
+                    ::tokio::time::sleep(d).await
+                }
+            }
+        }
+    }
+}
+
+/// Stands in for the `futures_timer` crate inside `environment.rs`.
+pub mod futures_timer {
+    use super::{BoxFut, Duration, Future, Pin, backend};
+    pub enum Delay {
+        Real(::futures_timer::Delay),
+        Virt(BoxFut),
+    }
+    impl Delay {
+        pub fn new(d: Duration) -> Self {
+            if let Some(b) = backend() {
+                Delay::Virt(b.sleep(d))
+            } else {
+                Delay::Real(::futures_timer::Delay::new(d))
+            }
+        }
+    }
+    impl Future for Delay {
+        type Output = ();
+        fn poll(self: Pin<&mut Self>, cx: &mut std::task::Context<'_>) -> std::task::Poll<()> {
+            match self.get_mut() {
+                Delay::Real(d) => Pin::new(d).poll(cx),
+                Delay::Virt(f) => f.as_mut().poll(cx),
+            }
+        }
+    }
+}
+
+/// Stands in for the `async_lock` crate inside `actor/service.rs`: every acquisition of the
+/// registry lock becomes a scheduling point for the harness.
+pub mod async_lock {
+    use super::backend;
+    pub use ::async_lock::{Mutex, RwLockReadGuard, RwLockWriteGuard};
+    #[derive(Default)]
+    pub struct RwLock<T>(::async_lock::RwLock<T>);
+    impl<T> RwLock<T> {
+        pub async fn write(&self) -> RwLockWriteGuard<'_, T> {
+            let y = backend().map(|b| b.yield_point("registry.write"));
+            if let Some(y) = y {
+                y.await
+            }
+            self.0.write().await
+        }
+        pub async fn read(&self) -> RwLockReadGuard<'_, T> {
+            let y = backend().map(|b| b.yield_point("registry.read"));
+            if let Some(y) = y {
+                y.await
+            }
+            self.0.read().await
+        }
+        pub fn try_read(&self) -> Option<RwLockReadGuard<'_, T>> {
+            self.0.try_read()
+        }
+        pub fn try_write(&self) -> Option<RwLockWriteGuard<'_, T>> {
+            self.0.try_write()
+        }
+    }
+}
